@@ -24,6 +24,7 @@ Inductive errc :=
 | EShort        (* "not enough bytes in buffer to read ..." (every primitive reader) *)
 | EInetSize     (* "invalid IP size" *)
 | ENegCols      (* "received negative column count" *)
+| ENegPk        (* "received negative partition key count" *)
 | ENegRows      (* "invalid row_count in result frame" *)
 | EUnkErrCode   (* "unknown error code" *)
 | EUnkResKind   (* "unknown result kind" *)
@@ -47,19 +48,8 @@ Inductive errc :=
 
 Inductive crashc :=
 | CGuarded      (* a slice that a preceding length check protects; proved unreachable *)
-| CInetSlice    (* frame.go readInetAdressOnly: f.buf[:size] after checking only len(f.buf) < 1 *)
-| CPkeyMake     (* frame.go parsePreparedMetadata: make([]int, pkeyCount) with pkeyCount < 0 *)
-| CScanPanic    (* session.go Iter.Scan -> readColumn -> readInt: panic(error) outside any recover *)
-| CScanDest     (* session.go scanColumn: dest[0] on an empty dest (trailing zero-arity tuple columns) *)
-| CScannerIdx   (* session.go iterScanner.Scan: is.cols[i] with i the destination index, not the column index *)
-| CTupleField   (* marshal.go readBytes: p[:size] / p[size:] without a length check *)
-| CMapKey       (* helpers.go goType: reflect.MapOf with a key type that is not comparable *)
-| CTypeAssert   (* helpers.go goType: t.(CollectionType) on a type that is not one (unreachable from readTypeInfo) *)
-| CListNeg      (* marshal.go unmarshalList: reflect.MakeSlice(t, n, n) with n < 0 *)
-| CDateShort    (* marshal.go unmarshalDate: binary.BigEndian.Uint32(data) with 1..3 bytes *)
-| CTypeIdx      (* metadata.go parseParamNodes: t.input[t.index] with t.index == len(t.input) *)
-| CTypeParams   (* metadata.go parse / asTypeInfo: params[count-1], params[0], params[1] on a shorter list *)
-| CTypeNilName. (* metadata.go parse: param.name dereferenced for a collection parameter without a name *)
+| CScannerIdx   (* session.go iterScanner.Scan: is.cols[c] -- Next read exactly one cell per column; proved unreachable *)
+| CTypeAssert.  (* helpers.go goType: t.(CollectionType) on a type that is not one; unreachable for types built by readTypeInfo *)
 
 Inductive res (A : Type) :=
 | Ok (a : A)
@@ -135,12 +125,12 @@ Definition read_count {A} (p : P A) (n : Z) : P (list A) := fun b => read_loop (
 Definition read_string_list : P (list bytes) :=
   size <- read_short ;; alloc (16 * size) ;;; read_count read_string size.
 
-(* readInetAdressOnly: the second length check tests 1, not size *)
+(* readInetAdressOnly *)
 Definition read_inet_addr : P bytes :=
   need 1 ;;; sz <- take CGuarded 1 ;;
   let size := be_dec sz in
   if negb ((size =? 4) || (size =? 16)) then fail EInetSize
-  else need 1 ;;; alloc size ;;; take CInetSlice size.
+  else need size ;;; alloc size ;;; take CGuarded size.
 
 Definition read_inet : P (bytes * Z) := ip <- read_inet_addr ;; port <- read_int ;; ret (ip, port).
 
@@ -207,13 +197,15 @@ Fixpoint read_type (fuel : nat) : P tinfo :=
       let custom := fst ct in
       let typ := snd ct in
       if typ =? K.TypeTuple then
-        n <- read_short ;; alloc (16 * n) ;;;
-        elems <- read_count (read_type fuel') n ;;
+        n <- read_short ;;
+        (* tuple.Elems = append(tuple.Elems, f.readTypeInfo()): the slice grows with the elements read; Go's
+           growth factors (2, then 1.25) allocate at most five times the final size in total *)
+        elems <- read_count (t <- read_type fuel' ;; alloc 80 ;;; ret t) n ;;
         ret (TTuple custom elems)
       else if typ =? K.TypeUDT then
         ks <- read_string ;; name <- read_string ;;
-        n <- read_short ;; alloc (32 * n) ;;;
-        fields <- read_count (nm <- read_string ;; t <- read_type fuel' ;; ret (nm, t)) n ;;
+        n <- read_short ;;
+        fields <- read_count (nm <- read_string ;; t <- read_type fuel' ;; alloc 160 ;;; ret (nm, t)) n ;;
         ret (TUDT custom ks name fields)
       else if (typ =? K.TypeMap) || (typ =? K.TypeList) || (typ =? K.TypeSet) then
         key <- (if typ =? K.TypeMap then k <- read_type fuel' ;; ret (Some k) else ret None) ;;
@@ -288,9 +280,10 @@ Definition parse_prepared_metadata (proto : Z) : P pmeta :=
   else
     pkeys <- (if proto >=? K.protoVersion4
               then pkc <- read_int ;;
-                   (* pkeys := make([]int, pkeyCount) *)
-                   if pkc <? 0 then crash CPkeyMake
-                   else alloc (8 * pkc) ;;; read_count read_short pkc
+                   if pkc <? 0 then fail ENegPk
+                   else need (2 * pkc) ;;;           (* every partition key index is a [short] *)
+                        alloc (8 * pkc) ;;;          (* pkeys := make([]int, pkeyCount) *)
+                        read_count read_short pkc
               else ret []) ;;
     r <- read_meta_tail flags colcount ;;
     ret {| pm_meta := fst r; pm_pkeys := pkeys; pm_ks := fst (snd r); pm_table := snd (snd r) |}.
@@ -519,11 +512,13 @@ Definition read_frame (length flags : Z) (s : bytes) : res (bytes * bytes) :=
    its arguments (data = nil for a null cell) *)
 Record cell := { cell_type : tinfo; cell_data : option bytes }.
 
-(* marshal.go readBytes(p): size := readInt(p); p = p[4:]; nil if size < 0; else p[:size], p[size:] *)
+(* marshal.go readBytes(p), called with len(p) >= 4: size := readInt(p); p = p[4:]; nil if size < 0;
+   an UnmarshalError if size > len(p); else p[:size], p[size:] *)
 Definition tuple_read_bytes : P (option bytes) :=
   hd <- take CGuarded 4 ;;
   let size := signed 32 (be_dec hd) in
-  if size <? 0 then ret None else s <- take CTupleField size ;; ret (Some s).
+  if size <? 0 then ret None
+  else l <- get_len ;; if l <? size then fail EUnmarshal else s <- take CGuarded size ;; ret (Some s).
 
 (* unmarshalTuple, value.(type) = []interface{}: for each element type, if len(data) >= 4 read a
    [bytes] from data, else the element gets nil *)
@@ -545,9 +540,8 @@ Definition on_cell {A} (p : P A) (data : bytes) : P A := fun b =>
   | (Crash k, c) => (Crash k, c)
   end.
 
-(* readColumn = readBytesInternal called from Iter.Scan: readInt's panic is not recovered there *)
-Definition read_column : P (option bytes) :=
-  l <- get_len ;; if l <? 4 then crash CScanPanic else read_bytes.
+(* readColumn = readBytesInternal, which checks for the four size bytes itself and returns an error *)
+Definition read_column : P (option bytes) := read_bytes.
 
 (* the loop of Iter.Scan over iter.meta.columns; [avail] = len(dest) - i, every dest non-nil *)
 Fixpoint scan_cols (cols : list col) (avail : Z) : P (list cell) :=
@@ -555,13 +549,18 @@ Fixpoint scan_cols (cols : list col) (avail : Z) : P (list cell) :=
   | [] => ret []
   | c :: rest =>
       data <- read_column ;;
-      (* scanColumn(colBytes, col, dest[i:]): dest[0] == nil is evaluated first *)
-      if avail <=? 0 then crash CScanDest
+      (* scanColumn(colBytes, col, dest[i:]) *)
+      if avail <=? 0 then
+        (* no destination left: fine for a tuple without components, an error otherwise *)
+        match c_type c with
+        | TTuple _ [] => scan_cols rest avail
+        | _ => fail EScanCount
+        end
       else
         match c_type c with
         | TTuple _ elems =>
             (* Unmarshal(col.TypeInfo, p, dest[:count]) *)
-            if Z.of_nat (length elems) >? avail then crash CScanDest else
+            if Z.of_nat (length elems) >? avail then fail EScanCount else
             cs <- on_cell (unmarshal_tuple_cells elems) (opt_bytes data) ;;
             more <- scan_cols rest (avail - Z.of_nat (length elems)) ;;
             ret (cs ++ more)
@@ -621,23 +620,27 @@ Fixpoint read_cells (cols : list col) : P (list (option bytes)) :=
   | _ :: rest => d <- read_column ;; ds <- read_cells rest ;; ret (d :: ds)
   end.
 
-(* iterScanner.Scan's loop: scanColumn(is.cols[i], col, dest[i:]) with i the position in dest *)
-Fixpoint scanner_cols (cols : list col) (cells : list (option bytes)) (i : nat) (avail : Z) : res (list cell) :=
+(* iterScanner.Scan's loop: scanColumn(is.cols[c], col, dest[i:]), c the column index *)
+Fixpoint scanner_cols (cols : list col) (cells : list (option bytes)) (avail : Z) : res (list cell) :=
   match cols with
   | [] => Ok []
   | c :: rest =>
-      match nth_error cells i with
-      | None => Crash CScannerIdx
-      | Some data =>
-          if avail <=? 0 then Crash CScanDest
+      match cells with
+      | [] => Crash CScannerIdx
+      | data :: cells' =>
+          if avail <=? 0 then
+            match c_type c with
+            | TTuple _ [] => scanner_cols rest cells' avail
+            | _ => Err EScanCount
+            end
           else
             match c_type c with
             | TTuple _ elems =>
-                if Z.of_nat (length elems) >? avail then Crash CScanDest
+                if Z.of_nat (length elems) >? avail then Err EScanCount
                 else
                   match out (unmarshal_tuple_cells elems) (opt_bytes data) with
                   | Ok (cs, _) =>
-                      match scanner_cols rest cells (i + length elems) (avail - Z.of_nat (length elems)) with
+                      match scanner_cols rest cells' (avail - Z.of_nat (length elems)) with
                       | Ok more => Ok (cs ++ more)
                       | r => r
                       end
@@ -645,7 +648,7 @@ Fixpoint scanner_cols (cols : list col) (cells : list (option bytes)) (i : nat) 
                   | Crash k => Crash k
                   end
             | t =>
-                match scanner_cols rest cells (S i) (avail - 1) with
+                match scanner_cols rest cells' (avail - 1) with
                 | Ok more => Ok ({| cell_type := t; cell_data := data |} :: more)
                 | r => r
                 end
@@ -663,7 +666,7 @@ Definition scanner_step (m : rmeta) (nrows ndest : Z) (it : iter) : scan_out * i
            | Ok (cells, b') =>
                let it' := {| it_pos := it_pos it + 1; it_err := None; it_buf := b' |} in
                if negb (ndest =? m_actual m) then (SErr EScanCount, it')
-               else match scanner_cols (m_cols m) cells 0 ndest with
+               else match scanner_cols (m_cols m) cells ndest with
                     | Ok cs => (SRow cs, it')
                     | Err e => (SErr e, it')
                     | Crash c => (SPanic c, it')
@@ -698,7 +701,7 @@ Fixpoint tuple_names (name : bytes) (i : Z) (elems : list tinfo) : list bytes :=
   end.
 
 (* goType (helpers.go:43): the Go type NewWithError allocates for a column; all the model needs of it
-   is whether it can be a map key.  reflect.MapOf panics on a key type that is not comparable. *)
+   is whether it can be a map key: a map type whose key type is not comparable is refused with an error. *)
 Definition comparable_natives : list Z :=
   [K.TypeVarchar; K.TypeAscii; K.TypeInet; K.TypeText; K.TypeBigInt; K.TypeCounter; K.TypeTime; K.TypeTimestamp;
    K.TypeBoolean; K.TypeFloat; K.TypeDouble; K.TypeInt; K.TypeSmallInt; K.TypeTinyInt; K.TypeDecimal; K.TypeUUID;
@@ -718,10 +721,9 @@ Fixpoint go_type (t : tinfo) : res bool :=      (* Ok comparable? *)
         | None => Crash CTypeAssert      (* not produced by readTypeInfo *)
         | Some k =>
             match go_type k with
-            | Ok kc => match go_type elem with
-                       | Ok _ => if kc then Ok false else Crash CMapKey
-                       | r => r
-                       end
+            | Ok kc =>
+                if kc then match go_type elem with Ok _ => Ok false | r => r end
+                else Err EGoType          (* the key's Go type is not comparable: an error since the fix *)
             | r => r
             end
         end
